@@ -7,6 +7,9 @@ package golang
 
 //@ package lexer
 //@
+//@ # the sizes of the tables are symbolic (arbitrary integers >= 1): the proofs do not depend on the carrier grammar
+//@ symconst NumStates NumSymbols
+//@
 //@ # The transition functions are table entries: one uninterpreted function of (function value, rune).
 //@ specfun TransF(f int, r int) int
 //@
